@@ -118,11 +118,13 @@ func (cs *ContractSet) parseFile(repo, path string) error {
 	var pendingSpec *SpecFunc
 	flushSpec := func() error {
 		if pendingSpec != nil {
-			e, err := parser.ParseExpr(pendingSpec.Src)
-			if err != nil {
-				return fmt.Errorf("%s: cannot parse spec %s body %q: %v", path, pendingSpec.Name, pendingSpec.Src, err)
+			if strings.TrimSpace(pendingSpec.Src) != "" {
+				e, err := parser.ParseExpr(pendingSpec.Src)
+				if err != nil {
+					return fmt.Errorf("%s: cannot parse spec %s body %q: %v", path, pendingSpec.Name, pendingSpec.Src, err)
+				}
+				pendingSpec.Expr = e
 			}
-			pendingSpec.Expr = e
 			cs.specs[pkgPath+"."+pendingSpec.Name] = pendingSpec
 			if _, dup := cs.specs[pendingSpec.Name]; !dup {
 				cs.specs[pendingSpec.Name] = pendingSpec
@@ -276,7 +278,7 @@ func splitTop(s string) []string {
 	return out
 }
 
-var specHdrRe = regexp.MustCompile(`^(rec\s+)?(\w+)\((.*?)\)\s*([\w.\[\]*]+)\s*=\s*(.*)$`)
+var specHdrRe = regexp.MustCompile(`^(rec\s+)?(\w+)\((.*?)\)\s*([\w.\[\]*]+)\s*(?:=\s*(.*))?$`)
 
 func parseSpecHeader(s string) (*SpecFunc, error) {
 	m := specHdrRe.FindStringSubmatch(s)
@@ -313,4 +315,17 @@ func posOf(fset *token.FileSet, p token.Pos) string {
 	}
 	pp := fset.Position(p)
 	return fmt.Sprintf("%s:%d", pp.Filename, pp.Line)
+}
+
+// hasSpec: the contract states a pre/postcondition or frame (not just loop clauses), so calls go through it.
+func (c *Contract) hasSpec() bool {
+	if len(c.Modifies) > 0 || c.Trusted || c.Pure {
+		return true
+	}
+	for _, cl := range c.Clauses {
+		if cl.Loop == 0 && (cl.Kind == "requires" || cl.Kind == "ensures") {
+			return true
+		}
+	}
+	return false
 }
